@@ -244,7 +244,10 @@ func c12Gen(t *rapid.T) MetricCase {
 	if kind == "cmp" {
 		nestedOneIn = 2 // NaN against every comparison operator, on either side
 	}
-	if kind != "set" && rapid.IntRange(0, nestedOneIn-1).Draw(t, "nested-nan") == 0 {
+	if kind == "set" {
+		nestedOneIn = 3 // a NaN on one side of and / or / unless is a value like any other: the label set decides
+	}
+	if rapid.IntRange(0, nestedOneIn-1).Draw(t, "nested-nan") == 0 {
 		wrap := func(side *gen.Metric, label string) *gen.Metric {
 			if side.Kind == "literal" || side.Kind == "vector" {
 				return side
@@ -350,6 +353,10 @@ type C12DockerCase struct {
 	Steps   int       `json:"steps"`
 	ByL     string    `json:"by_l"` // grouping of the left side ("container" or "")
 	ByR     string    `json:"by_r"`
+	// TailL / TailR, when set, is a scalar operation applied to the side ("/ 0" makes every value
+	// of it NaN: under and / or / unless a NaN is a value like any other, the label set decides).
+	TailL string `json:"tail_l,omitempty"`
+	TailR string `json:"tail_r,omitempty"`
 }
 
 func c12DockerCheck(c C12DockerCase) (r evid.Result) {
@@ -391,6 +398,13 @@ func c12DockerCheck(c C12DockerCase) (r evid.Result) {
 		return pm, nil
 	}
 	lq, rq := side(c.SelL, c.ByL), side(c.SelR, c.ByR)
+	if c.TailL != "" {
+		lq = "(" + lq + " " + c.TailL + ")"
+	}
+	if c.TailR != "" {
+		rq = "(" + rq + " " + c.TailR + ")"
+	}
+	r.Class(c.TailL == "/ 0" || c.TailR == "/ 0" || c.TailL == "% 0" || c.TailR == "% 0", "a-side-is-NaN")
 	whole := lq + " " + c.Op + " " + rq
 	L, v := eval(lq)
 	if v != nil {
@@ -463,6 +477,9 @@ func c12DockerGen(t *rapid.T) C12DockerCase {
 	c.Steps = rapid.IntRange(0, 30).Draw(t, "steps")
 	by := rapid.SampledFrom([]string{"container", "container", "parity", ""}).Draw(t, "by")
 	c.ByL, c.ByR = by, by
+	tails := []string{"", "", "", "/ 0", "% 0", "* 0", "- 1"}
+	c.TailL = rapid.SampledFrom(tails).Draw(t, "tail-l")
+	c.TailR = rapid.SampledFrom(tails).Draw(t, "tail-r")
 	return c
 }
 
